@@ -156,6 +156,14 @@ func allocCaptured(al *ssa.Alloc) bool {
 // the latest store earlier in the same block (if no call could have changed
 // the local in between), or the only store if it dominates the load.
 func unwrapLoadAlloc1(v ssa.Value) ssa.Value {
+	// a conversion between channel types only narrows the direction (`(<-chan T)(c)`): same channel
+	if ct, ok := v.(*ssa.ChangeType); ok {
+		_, c1 := ct.Type().Underlying().(*types.Chan)
+		_, c2 := ct.X.Type().Underlying().(*types.Chan)
+		if c1 && c2 {
+			return ct.X
+		}
+	}
 	u, ok := v.(*ssa.UnOp)
 	if !ok || u.Op != token.MUL {
 		return v
